@@ -81,6 +81,10 @@ CHECKS["C10"] = dict(engine="wire", cat="fault_enumeration",
    text="9 protocol-conforming server scripts (SASL+bind, with session offered, with stream management, with resumable stream management, SASL2+bind2 with/without inline stream management, XEP-0078, see-other-host before and after authentication); the fake server drops the TCP connection after every protocol event k (every element sent or received, and once established with a request outstanding), for one and for every pair (k1,k2) of consecutive attempts (thorough: all triples for the two longest scripts), followed by a clean attempt; after every cut state()/isConnected()/isAuthenticated() are read, 'connected' emissions are counted per attempt, outstanding requests must complete exactly once, the clean attempt must answer every step of the script, must not ask to resume anything that was never resumable, and must end connected",
    note="the fault is a TCP reset by the server on loopback (no half-open connections, no timeouts); a refused resumption is always followed by a fresh bind",
    tech="runtime monitoring: exhaustive fault injection at every protocol event with state assertions at quiescence and a transcript grammar for the next attempt, under ASan/UBSan")
+CHECKS["C04"] = dict(engine="wire", cat="exploration",
+   text="server scripts = words over a 33-letter alphabet (stream headers with/without version and id, 8 feature sets with starttls optional/required/absent + SASL, SASL2+FAST, legacy auth, bind, sm; <proceed/>, TLS <failure/>, legacy-auth field offers, IQ gets/results, <r/>, unsolicited <success/>/<challenge/>, message, presence, stream errors, see-other-host with/without close): exhaustive to length 3 (quick) / 4 (thorough) over a 16-letter core x 3-7 client configurations with TLSRequired, random words to length 10, scripts that authenticate over real TLS and are then redirected to a plain endpoint, and positive-control scripts where the fake server really completes STARTTLS (committed test certificate); the server's plaintext transcript is classified element by element (stanzas, SASL/SASL2 elements, bind, legacy auth) and searched for the configured secrets in their encodings; when the last server action makes encryption impossible the client must end disconnected",
+   note="TLS itself (OpenSSL through Qt) is trusted; nonzas other than SASL elements sent in clear are recorded, not judged; 'gives up' is judged only when the deciding event is the server's last action on a well-formed stream",
+   tech="runtime monitoring: transcript classifier + secret search over the bytes a hostile scripted server receives before TLS, with a real-TLS positive control, under ASan/UBSan")
 REASON_TODO = "check not built yet in this session (planned, see DESIGN.md §2)"
 
 def main():
